@@ -22,7 +22,7 @@ Reduced to contracts (the *insensitivity* half, the build half of faithfulness, 
       gate and — when the request is otherwise valid — is answered; ``RpcServer._serve_unary`` and the
       HTTP arm answer it by writing the pre-built batch with the pre-built metadata, without invoking
       the implementation.
-  O4  ``RpcServer.__init__`` (backward slice): the hash the server reports (``protocol_hash``) is the
+  O4  ``RpcServer.__init__`` (whole function, callees by contract): the hash the server reports (``protocol_hash``) is the
       one computed by ``build_describe_batch`` for (protocol.__name__, rpc_methods(protocol), ...) —
       before the synthetic ``__describe__`` entry is added, and whether or not describe is enabled —
       and the batch/metadata served are the ones that call returned.
@@ -61,14 +61,14 @@ from vgi_rpc.rpc._types import RpcMethodInfo
 intro = __import__("sys").modules["vgi_rpc.introspect"]
 
 MANIFEST = {
-    "level_text": "Deductive proof over the real build_describe_batch / compute_protocol_hash, by self-composition: for every protocol name, every set of up to 3 methods with arbitrary (symbolic) names in every insertion order, arbitrary kind strings, return/header/exchange flags and arbitrary schema byte strings, and for ANY two choices of server id, declared protocol version, docstrings, parameter defaults, parameter type names, parameter docs and result types, the byte string fed to SHA-256, the digest placed in the response and every cell of the describe batch are equal (and, structurally, no symbol of those inputs occurs in the hashed bytes or in a branch condition); the batch has one row per method in ascending name order carrying exactly that method's wire fields, and the metadata carries name, versions, hash, server id and declared version. Over every path of the real RpcServer.serve_one, RpcServer._serve_unary and _run_unary_sync: a __describe__ request never reaches the protocol-version check, is answered whenever it is otherwise valid, and is answered with the pre-built batch + metadata without calling the implementation. A backward slice of RpcServer.__init__ shows the reported protocol_hash is that digest, computed before the synthetic __describe__ entry is added and independently of enable_describe.",
+    "level_text": "Deductive proof over the real build_describe_batch / compute_protocol_hash, by self-composition: for every protocol name, every set of up to 3 methods with arbitrary (symbolic) names in every insertion order, arbitrary kind strings, return/header/exchange flags and arbitrary schema byte strings, and for ANY two choices of server id, declared protocol version, docstrings, parameter defaults, parameter type names, parameter docs and result types, the byte string fed to SHA-256, the digest placed in the response and every cell of the describe batch are equal (and, structurally, no symbol of those inputs occurs in the hashed bytes or in a branch condition); the batch has one row per method in ascending name order carrying exactly that method's wire fields, and the metadata carries name, versions, hash, server id and declared version. Over every path of the real RpcServer.serve_one, RpcServer._serve_unary and _run_unary_sync: a __describe__ request never reaches the protocol-version check, is answered whenever it is otherwise valid, and is answered with the pre-built batch + metadata without calling the implementation. Over every path of the real RpcServer.__init__ (callees by contract) the reported protocol_hash is that digest, computed before the synthetic __describe__ entry is added and independently of enable_describe.",
     "level_note": "PARTIAL. Not reduced: (a) sensitivity ('differs whenever any wire-relevant detail differs') needs SHA-256 collision resistance and injectivity of a separator-framed pre-image over arbitrary Arrow bytes; (b) faithfulness of parse_describe_batch and of the Arrow round trip is inside pyarrow: RecordBatch.from_pydict / column(i)[j].as_py() are assumed to return the Python values put in, Schema.serialize().to_pybytes() is an (unspecified) function of the schema. The method count is enumerated (0..3 methods; all fields symbolic) rather than handled by a loop invariant: both loops treat rows uniformly and carry no cross-row state other than the append-only lists / hash input. `sorted` on (name, info) pairs is the builtin by contract (ascending by name; mapping keys are distinct). sha256 is an uninterpreted function of its input bytes. The stream-init HTTP site keeps the same exemption but can never receive __describe__ (a unary method) and carries no obligation here; the gate itself is C09's. Engine + z3/cvc5 trusted.",
-    "technique": "contract-based deductive verification: non-interference by self-composition + symbol-dependency (frame) check on the hashed term, path-wise postconditions and ghost traces on the dispatch sites, backward slice of RpcServer.__init__; VCs by pyvc, z3/cvc5",
+    "technique": "contract-based deductive verification: non-interference by self-composition + symbol-dependency (frame) check on the hashed term, path-wise postconditions and ghost traces on the dispatch sites and on RpcServer.__init__; VCs by pyvc, z3/cvc5",
     "design_ref": "DESIGN.md §5 C39",
 }
 EXPLANATION = MANIFEST["level_text"]
 TRUSTED = [
-    "pyvc VC generator, its str/bytes encodings and slicer; z3 5.1.0 / cvc5 1.0.3",
+    "pyvc VC generator and its str/bytes encodings; z3 5.1.0 / cvc5 1.0.3",
     "hashlib.sha256: update() calls concatenate, hexdigest() is a function of the concatenated input (uninterpreted)",
     "pyarrow: RecordBatch.from_pydict(cols, schema) followed by column(name)[i].as_py() returns cols[name][i] for utf8/bool/binary columns (None for null); num_rows = len of the columns; Schema.serialize().to_pybytes() is a function of the schema",
     "builtin sorted() on (key, value) pairs with pairwise distinct str keys returns them ascending by key (code-point order)",
@@ -502,3 +502,447 @@ def build(S):
         S.canary("O1.canary.hashed_bytes_ignore_method_names", "name_0" not in sym_names(A["pre"]))
     if k == 2 and order == [1, 0] and shapes == [SHAPES[0], SHAPES[1]]:
         S.canary("O2.canary.rows_in_insertion_order", cell_eq(cols["name"][0], wire["methods"][0]["name"]) if len(cols.get("name", [])) == k else False)
+
+
+# ------------------------------------------------------------------------------------------
+# O3  __describe__ is exempt from the protocol-version gate and answered from the pre-built batch
+# ------------------------------------------------------------------------------------------
+
+DESCRIBE = "__describe__"
+
+
+def version_gate(S):
+    """RpcServer._check_protocol_version by contract (C09 proves the gate): here the request's version is
+    ANY value and the gate may accept or refuse it; reaching it at all is recorded."""
+
+    def check_version(S, me_, value):
+        S.event("version_checked", value)
+        if S.choose(2) == 1:
+            raise_(ProtocolVersionError, "protocol version mismatch")
+
+    S.handlers["RpcServer._check_protocol_version"] = check_version
+    S.handlers["Server._check_protocol_version"] = check_version
+
+
+def request_validators(S):
+    ok = {"v": True}
+    for nm in ("_deserialize_params", "_validate_call_signature", "_validate_params"):
+
+        def validator(S, *a, _nm=nm, **k):
+            S.event("validated", _nm)
+            if S.choose(2) == 1:
+                ok["v"] = False
+                raise_(TypeError, "bad request")
+
+        S.handlers[nm] = validator
+    return ok
+
+
+def request_metadata(S):
+    """The request's custom metadata: the protocol-version key is absent or carries any bytes."""
+    present = S.choose(2) == 1
+    S.inputs["request_version_present"] = present
+    val = S.bytes("request_protocol_version") if present else None
+    md = SObj(None, kind="KVMeta")
+    S.handlers["KVMeta.get"] = lambda S, m, key, default=None: val if key == PROTOCOL_VERSION_KEY else None
+    return md
+
+
+def native_describe_server(declared="1.2.3", enable_describe=True):
+    from typing import Protocol
+
+    from vgi_rpc.rpc import RpcServer
+
+    calls = []
+
+    class P2(Protocol):
+        def ping(self) -> int: ...
+
+    if declared is not None:
+        P2.protocol_version = declared
+
+    class Impl:
+        def ping(self) -> int:
+            calls.append("ping")
+            return 1
+
+    def spy(self, *a, **k):  # an implementation attribute of that name must never be *called*
+        calls.append("__describe__")
+        return None
+
+    setattr(Impl, DESCRIBE, spy)
+    return RpcServer(P2, Impl(), enable_describe=enable_describe), calls
+
+
+def native_request(method, version):
+    import io
+
+    from vgi_rpc.metadata import RPC_METHOD_KEY
+
+    md = {RPC_METHOD_KEY: method.encode(), REQUEST_VERSION_KEY: REQUEST_VERSION}
+    if version is not None:
+        md[PROTOCOL_VERSION_KEY] = version
+    buf = io.BytesIO()
+    schema = pa.schema([])
+    with pa.ipc.new_stream(buf, schema) as w:
+        w.write_batch(pa.RecordBatch.from_arrays([], schema=schema), custom_metadata=md)
+    return buf.getvalue()
+
+
+def native_read_describe(body):
+    import io
+
+    r = pa.ipc.open_stream(io.BytesIO(body))
+    batch, md = r.read_next_batch_with_custom_metadata()
+    return batch, md
+
+
+def replay_socket_describe(inputs, ob):
+    """A real RpcServer whose Protocol declares a version, a __describe__ request with the model's (mismatching) version."""
+    import io
+
+    server, calls = native_describe_server()
+    version = inputs.get("request_protocol_version", b"9.9.9") if inputs.get("request_version_present") else None
+    if version == b"1.2.3":
+        version = b"9.9.9"
+
+    class T:
+        def __init__(self, data):
+            self.reader = io.BytesIO(data)
+            self.writer = io.BytesIO()
+
+    t = T(native_request(DESCRIBE, version))
+    try:
+        server.serve_one(t)
+        batch, md = native_read_describe(t.writer.getvalue())
+    except Exception as e:
+        return ReplayResult(True, f"__describe__ with request protocol version {version!r} against a server declaring 1.2.3: {type(e).__name__}: {e}")
+    problems = []
+    if md is None or md.get(b"vgi_rpc.log_level") is not None:
+        problems.append(f"answered with an error/log batch: {dict(md or {})}")
+    elif not batch.equals(server._describe_batch) or md.get(PROTOCOL_HASH_KEY) != server.protocol_hash.encode():
+        problems.append("the answer is not the pre-built describe batch + metadata")
+    if calls:
+        problems.append(f"the implementation was touched: {calls}")
+    return ReplayResult(bool(problems), f"__describe__ with request protocol version {version!r} against a server declaring 1.2.3: " + ("; ".join(problems) or "answered from the pre-built batch"))
+
+
+@unit(
+    "C39.O3a RpcServer.serve_one: __describe__ never reaches the version gate and is dispatched when otherwise valid",
+    targets=["vgi_rpc/rpc/_server.py::RpcServer.serve_one"],
+    replay=replay_socket_describe,
+    min_obligations=20,
+)
+def serve_one_describe(S):
+    W = World(S)
+    md = request_metadata(S)
+    declares_version = S.choose(2) == 1
+    is_describe = S.choose(2) == 1
+    name = DESCRIBE if is_describe else S.str("method_name")
+    if not is_describe:
+        S.assume(Not(eq(name, DESCRIBE)))
+    me = SObj(
+        srv.RpcServer,
+        _ipc_validation="full",
+        _external_config=None,
+        _transport_kind=TransportKind.PIPE,
+        _server_id="srv",
+        _server_version="1",
+        _protocol_hash="h",
+        _protocol_version_parts=((1, 2, 3) if declares_version else None),
+        _methods=SObj(None, kind="Methods"),
+    )
+    transport = SObj(None, kind="Transport", reader=SObj(None, kind="RawReader"), writer=SObj(None, kind="RawWriter"))
+    S.handlers["Transport.__isinstance__"] = lambda S, o, c: False
+    S.handlers["_maybe_attach_shm"] = lambda S, req_md, transport_kind: None
+
+    def read_request(S, reader, ipc_validation=None, external_config=None, shm=None, attach_shm=None):
+        S.interp.models.call_concrete_method(S.interp, srv._current_request_metadata, "set", None, [md], {})
+        return (name, {})
+
+    S.handlers["_read_request"] = read_request
+    info = method_info(DESCRIBE if is_describe else "m", MethodType.UNARY)
+    S.handlers["Methods.get"] = lambda S, m, n, default=None: info
+    S.handlers["Methods.keys"] = lambda S, m: ["m"]
+    version_gate(S)
+    ok = request_validators(S)
+
+    def dispatch(tag):
+        def h(S, me_, transport_, info_, kwargs, stats=None, shm=None):
+            S.event("dispatch", tag, info_)
+
+        return h
+
+    S.handlers["RpcServer._serve_unary"] = dispatch("unary")
+    S.handlers["RpcServer._serve_stream"] = dispatch("stream")
+    out = S.outcome(srv.RpcServer.serve_one, me, transport, shm_cache=None)
+    names = [e[0] for e in S.trace]
+    disp = S.events("dispatch")
+    if is_describe:
+        S.oblige("O3a.describe_never_consults_the_version_gate", "version_checked" not in names, kind="trace")
+        S.oblige("O3a.describe_request_raises_nothing", out.returned, kind="raises")
+        if ok["v"]:
+            S.oblige("O3a.valid_describe_request_is_dispatched_to_the_unary_path", len(disp) == 1 and disp[0][1] == "unary" and disp[0][2] is info, kind="trace")
+        else:
+            S.oblige("O3a.invalid_describe_request_is_answered_with_an_error_stream", not disp and len(S.events("error_stream")) == 1, kind="trace")
+    elif declares_version:
+        # sanity (C09/C05 own this clause): every other method passes the gate first
+        S.oblige("O3a.other_methods_are_dispatched_only_after_the_version_gate", not disp or ("version_checked" in names and names.index("version_checked") < names.index("dispatch")), kind="trace")
+        S.canary("O3a.canary.no_method_ever_reaches_the_version_gate", SBool(z3.BoolVal("version_checked" not in names)))
+
+
+def replay_answer(inputs, ob):
+    """Socket and HTTP: __describe__ on a real server is answered with the pre-built batch, the implementation untouched."""
+    r1 = replay_socket_describe(dict(inputs, request_version_present=False), ob)
+    r2 = replay_http_describe(dict(inputs, request_version_present=False), ob)
+    return ReplayResult(r1.confirmed or r2.confirmed, f"socket: {r1.detail} | http: {r2.detail}")
+
+
+@unit(
+    "C39.O3b RpcServer._serve_unary: __describe__ is answered with the pre-built batch + metadata, the implementation is not invoked",
+    targets=["vgi_rpc/rpc/_server.py::RpcServer._serve_unary"],
+    replay=replay_answer,
+    min_obligations=20,
+)
+def serve_unary_describe(S):
+    import lib_dispatch
+
+    made = {}
+    real_make = lib_dispatch.make_server
+
+    def make_server(S_, hook, impl, describe=False):
+        made["me"] = real_make(S_, hook, impl, describe)
+        return made["me"]
+
+    S.handlers["_truncate_error_message"] = lambda S, exc: "message"  # telemetry helper of the non-describe paths
+    lib_dispatch.make_server = make_server  # observe the server object the shared driver builds (nothing else changes)
+    try:
+        ctx = lib_dispatch.run_serve_unary(S)
+    finally:
+        lib_dispatch.make_server = real_make
+    me, out = made["me"], ctx["out"]
+    name = ctx["info"].fields["name"]
+    invoked = S.events("impl_invoked")
+    writes = S.events("write_batch")
+    if ctx["describe"] and name == DESCRIBE:
+        S.oblige("O3b.describe_does_not_invoke_the_implementation", not invoked, kind="trace")
+        S.oblige("O3b.describe_raises_nothing", out.returned, kind="raises")
+        S.oblige(
+            "O3b.describe_writes_exactly_the_prebuilt_batch_with_the_prebuilt_metadata",
+            len(writes) == 1 and writes[0][2] is me.fields["_describe_batch"] and writes[0][3] is me.fields["_describe_metadata"] and writes[0][3] is not None,
+            kind="trace",
+        )
+        opens = S.events("stream_open")
+        S.oblige("O3b.describe_stream_uses_the_describe_schema_on_the_transport_writer", len(opens) == 1 and opens[0][2] is me.fields["_describe_batch"].fields["schema"], kind="trace")
+        S.oblige("O3b.describe_writes_no_error", not S.events("error_batch") and not S.events("error_stream"), kind="trace")
+    else:
+        S.canary("O3b.canary.the_implementation_is_never_invoked", SBool(z3.BoolVal(not invoked)))
+
+
+def replay_http_describe(inputs, ob):
+    """Real make_wsgi_app over a Protocol declaring a version; POST /__describe__ with the model's version metadata."""
+    import falcon.testing
+
+    from vgi_rpc.http import make_wsgi_app
+
+    server, calls = native_describe_server()
+    version = inputs.get("request_protocol_version", b"9.9.9") if inputs.get("request_version_present") else None
+    if version == b"1.2.3":
+        version = b"9.9.9"
+    client = falcon.testing.TestClient(make_wsgi_app(server, token_key=b"k" * 32))
+    resp = client.simulate_post(f"/{DESCRIBE}", body=native_request(DESCRIBE, version), headers={"Content-Type": "application/vnd.apache.arrow.stream"})
+    problems = []
+    if resp.status_code != 200:
+        problems.append(f"HTTP {resp.status_code}")
+    else:
+        try:
+            batch, md = native_read_describe(resp.content)
+            if md is None or md.get(b"vgi_rpc.log_level") is not None:
+                problems.append(f"answered with an error/log batch: {dict(md or {})}")
+            elif not batch.equals(server._describe_batch) or md.get(PROTOCOL_HASH_KEY) != server.protocol_hash.encode():
+                problems.append("the answer is not the pre-built describe batch + metadata")
+        except Exception as e:
+            problems.append(f"unreadable answer: {type(e).__name__}: {e}")
+    if calls:
+        problems.append(f"the implementation was touched: {calls}")
+    return ReplayResult(bool(problems), f"POST /{DESCRIBE} with request protocol version {version!r} against a server declaring 1.2.3: " + ("; ".join(problems) or "200, pre-built batch"))
+
+
+@unit(
+    "C39.O3c _run_unary_sync (HTTP): __describe__ never reaches the version gate and is answered with the pre-built batch + metadata",
+    targets=["vgi_rpc/http/server/_app_unary.py::_run_unary_sync"],
+    replay=replay_http_describe,
+    min_obligations=20,
+)
+def http_unary_describe(S):
+    import io
+
+    W = World(S)
+    md = request_metadata(S)
+    declares_version = S.choose(2) == 1
+    is_describe = S.choose(2) == 1
+    describe_enabled = True if is_describe else S.choose(2) == 1
+    name = DESCRIBE if is_describe else S.str("method_name")
+    if not is_describe:
+        S.assume(Not(eq(name, DESCRIBE)))
+    impl = SObj(None, kind="Impl")
+
+    def impl_attr(S, impl_, attr, *default):
+        S.event("impl_touched", attr)
+        return SObj(None, kind="UserMethod")
+
+    S.handlers[getattr] = lambda S, o, attr, *d: impl_attr(S, o, attr, *d) if o is impl else S.interp.getattr_value(o, attr)
+    S.handlers["UserMethod.__call__"] = lambda S, m, **kw: (S.event("impl_invoked"), S.opaque("result", "PyVal?"))[1]
+    batch = SObj(None, kind="Batch", schema=SObj(None, kind="Schema", tag="describe"))
+    dmeta = SObj(None, kind="KVMeta2", tag="describe-metadata")
+    server = SObj(
+        None,
+        kind="Server",
+        ipc_validation="full",
+        external_config=None,
+        _protocol_version_parts=((1, 2, 3) if declares_version else None),
+        _describe_batch=batch if describe_enabled else None,
+        _describe_metadata=dmeta if describe_enabled else None,
+        server_id="srv",
+        protocol_name="proto",
+        ctx_methods=frozenset(),
+        transport_kind=TransportKind.HTTP,
+        implementation=impl,
+        _dispatch_hook=None,
+        server_version="1",
+        protocol_hash="h",
+    )
+    app = SObj(None, kind="App", _server=server, _max_response_bytes=None, _max_externalized_response_bytes=None)
+
+    def read_request(S, stream, ipc_validation=None, external_config=None):
+        S.interp.models.call_concrete_method(S.interp, srv._current_request_metadata, "set", None, [md], {})
+        return (name, {})
+
+    S.handlers["_read_request"] = read_request
+    version_gate(S)
+    ok = request_validators(S)
+    S.handlers[io.BytesIO] = lambda S, *a: SObj(None, kind="Buf")
+    S.handlers["Buf.seek"] = lambda S, b, pos, whence=0: (S.event("seek", b, pos), pos)[1]
+    S.handlers["Buf.tell"] = lambda S, b: S.int("body_bytes")
+    S.handlers["_ClientLogSink"] = lambda S, server_id=None: SObj(None, kind="Sink")
+    S.handlers["Sink.flush_contents"] = lambda S, sink, writer, schema: None
+    S.handlers["_validate_result"] = lambda S, *a: None
+    S.handlers["_build_result_batch"] = lambda S, schema, value: SObj(None, kind="Batch", tag="result")
+    S.handlers["_write_result_batch"] = lambda S, writer, schema, value, external_config=None, shm=None, prebuilt=None: (S.event("result_batch"), 0)[1]
+    S.handlers["_enforce_response_budgets"] = lambda S, *a, **k: None
+    S.handlers["_truncate_error_message"] = lambda S, exc: "message"
+    info = method_info(DESCRIBE if is_describe else "m", MethodType.UNARY)
+    out = S.outcome(un._run_unary_sync, app, name, info, SObj(None, kind="RequestStream"))
+    names = [e[0] for e in S.trace]
+    writes = S.events("write_batch")
+    if is_describe:
+        S.oblige("O3c.describe_never_consults_the_version_gate", "version_checked" not in names, kind="trace")
+        S.oblige("O3c.describe_does_not_touch_the_implementation", "impl_touched" not in names and "impl_invoked" not in names, kind="trace")
+        if ok["v"]:
+            S.oblige("O3c.valid_describe_request_is_answered_200", out.returned and isinstance(out.value, tuple) and out.value[1] is HTTPStatus.OK, kind="raises")
+            S.oblige(
+                "O3c.describe_writes_exactly_the_prebuilt_batch_with_the_prebuilt_metadata",
+                len(writes) == 1 and writes[0][2] is batch and writes[0][3] is dmeta,
+                kind="trace",
+            )
+            opens = S.events("stream_open")
+            S.oblige("O3c.describe_body_is_one_stream_with_the_describe_schema", out.returned and len(opens) == 1 and opens[0][1] is out.value[0] and opens[0][2] is batch.fields["schema"], kind="trace")
+            S.oblige("O3c.describe_writes_no_error_and_no_result_of_user_code", not S.events("error_batch") and not S.events("result_batch"), kind="trace")
+        else:
+            S.oblige("O3c.invalid_describe_request_is_refused_with_400", out.raised and getattr(out.exc, "attrs", {}).get("status_code") is HTTPStatus.BAD_REQUEST and not writes, kind="raises")
+    elif declares_version:
+        S.oblige("O3c.other_methods_reach_user_code_only_after_the_version_gate", "impl_invoked" not in names or ("version_checked" in names and names.index("version_checked") < names.index("impl_invoked")), kind="trace")
+        S.canary("O3c.canary.no_method_ever_reaches_the_version_gate", SBool(z3.BoolVal("version_checked" not in names)))
+
+
+# ------------------------------------------------------------------------------------------
+# O4  RpcServer.__init__: the reported protocol_hash is build_describe_batch's, for the Protocol's own methods
+# ------------------------------------------------------------------------------------------
+
+
+def replay_init(inputs, ob):
+    """Two real servers for the same Protocol: describe on/off, different server ids -> same protocol_hash,
+    equal to the hash of the describe response, computed over the Protocol's own methods only."""
+    s1, _ = native_describe_server(enable_describe=True)
+    s2, _ = native_describe_server(enable_describe=False)
+    problems = []
+    if s1.protocol_hash != s2.protocol_hash:
+        problems.append(f"protocol_hash depends on enable_describe / server id: {s1.protocol_hash} vs {s2.protocol_hash}")
+    if s1._describe_metadata.get(PROTOCOL_HASH_KEY) != s1.protocol_hash.encode():
+        problems.append("server.protocol_hash is not the hash carried by the describe response")
+    if DESCRIBE in s1._describe_batch.column("name").to_pylist():
+        problems.append("the synthetic __describe__ entry is part of the describe rows / hash")
+    want = intro.build_describe_batch("P2", {k: v for k, v in s1.methods.items() if k != DESCRIBE}, "x")[1].get(PROTOCOL_HASH_KEY)
+    if want != s1.protocol_hash.encode():
+        problems.append("protocol_hash is not build_describe_batch(protocol.__name__, rpc_methods(protocol), ...)")
+    return ReplayResult(bool(problems), "; ".join(problems) or f"protocol_hash {s1.protocol_hash[:16]}… identical with describe on/off")
+
+
+@unit(
+    "C39.O4 RpcServer.__init__: protocol_hash and the served batch come from build_describe_batch over the Protocol's own methods",
+    targets=["vgi_rpc/rpc/_server.py::RpcServer.__init__"],
+    replay=replay_init,
+    min_obligations=10,
+)
+def server_init(S):
+    import inspect
+    import threading
+    import uuid
+
+    from vgi_rpc.utils import IpcValidation
+
+    declares = S.choose(2) == 1
+    enable = S.choose(2) == 1
+    sid_given = S.choose(2) == 1
+    pname = S.str("protocol_name")
+    pv = S.str("declared_protocol_version")
+    protocol = SObj(None, kind="ProtocolClass", __name__=pname)
+    S.handlers[vars] = lambda S, o: ({"protocol_version": pv} if declares else {})
+    S.handlers["parse_version"] = lambda S, v: (1, 2, 3)
+    own = {"m": SObj(None, kind="MethodInfo", name="m", tag="own-method")}
+    S.handlers["rpc_methods"] = lambda S, p: dict(own)
+    S.handlers[uuid.uuid4] = lambda S: SObj(None, kind="UUID", hex=S.str("generated_hex"))
+    S.handlers[threading.Lock] = lambda S: SObj(None, kind="Lock", name="transport_lock")
+    S.handlers["_validate_implementation"] = lambda S, p, impl, methods: None
+    S.handlers[IpcValidation.from_env] = lambda S: "full"
+    batch = SObj(None, kind="Batch", schema=SObj(None, kind="Schema", tag="describe"))
+    md = SObj(None, kind="KVMeta")
+    HASH = b"0f" * 32
+    S.handlers["KVMeta.get"] = lambda S, m, key, default=None: HASH if key == PROTOCOL_HASH_KEY else default
+
+    def build_contract(S, protocol_name, methods, server_id, protocol_version=None):
+        # by contract (O1/O2): returns (batch, metadata carrying the hex digest of the canonical payload)
+        S.event("build", protocol_name, dict(methods) if isinstance(methods, dict) else methods, server_id, protocol_version)
+        return (batch, md)
+
+    S.handlers["build_describe_batch"] = build_contract
+
+    def mk_info(S, **kw):
+        o = SObj(None, kind="MethodInfo")
+        o.fields.update(kw)
+        return o
+
+    S.handlers[RpcMethodInfo] = mk_info
+    impl = SObj(None, kind="Impl")
+    S.handlers[getattr] = lambda S, o, attr, *d: (None if o is impl else S.interp.getattr_value(o, attr))
+    S.handlers[inspect.signature] = lambda S, f: SObj(None, kind="Sig", parameters={})
+    me = SObj(srv.RpcServer)
+    sid = S.str("server_id") if sid_given else None
+    out = S.outcome(srv.RpcServer.__init__, me, protocol, impl, server_id=sid, enable_describe=enable, ipc_validation="full")
+    S.oblige("O4.init_raises_nothing", out.returned, kind="raises", why=(repr(out.exc) if out.raised else ""))
+    if not out.returned:
+        return
+    builds = S.events("build")
+    S.oblige("O4.build_describe_batch_called_once", len(builds) == 1, kind="trace")
+    if len(builds) != 1:
+        return
+    _, b_name, b_methods, b_sid, b_pv = builds[0]
+    S.oblige("O4.hash_is_over_the_protocols_own_name_and_methods_only", b_name is pname and isinstance(b_methods, dict) and set(b_methods) == {"m"} and b_methods["m"] is own["m"], kind="trace")
+    S.oblige("O4.describe_carries_this_servers_id_and_declared_version", b_sid is me.fields["_server_id"] and (b_pv is pv if declares else b_pv is None), kind="trace")
+    S.oblige("O4.reported_protocol_hash_is_the_digest_in_the_describe_metadata", me.fields["_protocol_hash"] == HASH.decode(), kind="post")
+    if enable:
+        S.oblige("O4.served_batch_and_metadata_are_the_built_ones", me.fields["_describe_batch"] is batch and me.fields["_describe_metadata"] is md, kind="post")
+        S.oblige("O4.describe_registered_as_a_unary_method_next_to_the_own_methods", set(me.fields["_methods"]) == {"m", DESCRIBE} and me.fields["_methods"][DESCRIBE].fields.get("method_type") is MethodType.UNARY, kind="post")
+    else:
+        S.oblige("O4.describe_disabled_serves_nothing", me.fields["_describe_batch"] is None and me.fields["_describe_metadata"] is None and set(me.fields["_methods"]) == {"m"}, kind="post")
+    S.canary("O4.canary.describe_always_enabled", SBool(z3.BoolVal(me.fields["_describe_batch"] is not None)))
